@@ -16,11 +16,11 @@ EVAL_RULE = ("type-directed (expression, datum) pairs from one PRNG seed: data f
 PROPS = {
     "C01": dict(
         title="Evaluate returns what the expression denotes",
-        level="proof", lean=[], theorems={},
+        level="proof", lean=['Ties.Coerce', 'Ties.Dispatch', 'Ties.EvaluateShape'], theorems={},
         frags=[("eval", 2500, 60000), ("scalar-eq", 150, 3000), ("absent", 60, 800), ("unroll", 200, 4000)],
         finding_props=["C01"], rule=EVAL_RULE,
     ),
-    "C02": dict(title="Equality in the value's own type", level="proof", lean=[], theorems={},
+    "C02": dict(title="Equality in the value's own type", level="proof", lean=['Ties.Coerce'], theorems={},
                 frags=[("scalar-eq", 400, 12000)], rule="scalar kinds x boundary values x literal spellings rendered from the value (equal / nearby / ill-typed / out of range); reference = strconv in the value's own type"),
     "C03": dict(title="not/and/or truth tables", level="proof", lean=['Props.C03', 'Ties.EvaluateShape'], theorems={},
                 frags=[("conn", 250, 6000)], rule="pairs (A,B) of generated sub-expressions on generated data; composites checked against the 3x3 table of the observed outcomes of A and B"),
@@ -38,11 +38,11 @@ PROPS = {
                 frags=[("matrix", 300, 15000), ("eval", 1500, 40000)], rule="complete operator x value-shape matrix (every reflect kind incl. invalid, nil/odd elements in containers) x 3 placements, plus random nesting"),
     "C10": dict(title="creation total on arbitrary bytes", level="proof", lean=[], theorems={},
                 frags=[("parse-bytes", 1500, 60000), ("parse-tokens", 1500, 100000)], rule="byte-level mutations incl. invalid UTF-8/NUL/unterminated quotes; exhaustive token sequences; shape oracle on CreateEvaluator/CreateFilter/Parse"),
-    "C11": dict(title="max-expressions budget exact", level="proof", lean=['Props.C11'], theorems={},
+    "C11": dict(title="max-expressions budget exact", level="proof", lean=['Props.C11', 'Ties.Options'], theorems={},
                 frags=[("budget", 60, 1200)], rule="inputs (valid, invalid, nested parentheses) x budgets N-3..N+3, 1..3, geometric sweep to 2^22, 2^40, 2^63, 2^64-1; both option spellings; step counter compared exactly with the model"),
-    "C12": dict(title="concurrent use", level="proof", lean=[], theorems={}, frags=[], race=True,
+    "C12": dict(title="concurrent use", level="proof", lean=['Props.C12', 'Ties.Effects'], theorems={}, frags=[], race=True,
                 rule="k goroutines on one evaluator/filter under the Go race detector, first use and steady state; results compared with the sequential run"),
-    "C13": dict(title="purity / history independence", level="proof", lean=[], theorems={},
+    "C13": dict(title="purity / history independence", level="proof", lean=['Props.C13', 'Ties.Effects'], theorems={},
                 frags=[("hist", 150, 5000)], rule="histories of 2..8 calls on one evaluator (data, errors, matches mixed), each compared with a fresh evaluator; datum snapshot before/after; Expression()"),
     "C14": dict(title="determinism under map order", level="proof", lean=[], theorems={},
                 frags=[("det", 150, 3000)], rule="quantifiers/filters over maps of 2..8 entries with mixed T/F/E elements, each evaluated 41 times"),
@@ -50,11 +50,11 @@ PROPS = {
                 frags=[("parse-tokens", 1500, 100000), ("parse-deriv", 800, 30000), ("parse-bytes", 500, 20000)], rule="exhaustive token sequences up to k (k=2 quick, 3 thorough) with/without blanks; random derivations with token mutations; result incl. AST and step count compared with the model engine on the regenerated table"),
     "C16": dict(title="print-then-parse round trip", level="proof", lean=[], theorems={},
                 frags=[("parse-deriv", 1200, 40000), ("quote-rt", 400, 8000)], rule="random trees x random renderings (blanks, parentheses, literal and selector styles) must parse to the printed tree; X == <quoted s> for adversarial s"),
-    "C17": dict(title="Filter.Execute", level="proof", lean=[], theorems={},
+    "C17": dict(title="Filter.Execute", level="proof", lean=['Props.C17'], theorems={},
                 frags=[("filter", 500, 15000)], rule="containers of every shape (slices, named slices, arrays, maps of every key type, nil/empty, non-containers, nil) compared with element-wise Evaluate; idempotence; partition"),
-    "C18": dict(title="options", level="proof", lean=[], theorems={},
+    "C18": dict(title="options", level="proof", lean=['Props.C18', 'Ties.Options'], theorems={},
                 frags=[("opts", 40, 800)], rule="all 16 subsets x permutations of the four options, repeated options, nil option, neutral settings"),
-    "C19": dict(title="ExpressionDump", level="proof", lean=[], theorems={},
+    "C19": dict(title="ExpressionDump", level="proof", lean=['Props.C19', 'Ties.DumpNames'], theorems={},
                 frags=[("dump", 500, 15000)], rule="parser-produced trees x indent strings x start levels, compared with the Lean model of the dump"),
     "C20": dict(title="generated parser = grammar", level="proof", lean=['Props.C20'], theorems={},
                 frags=[("parse-tokens", 300, 100000)], rule="complete structural comparison of the two regenerated tables (kernel-checked), plus parses on both tables"),
